@@ -473,7 +473,7 @@ Proof. unfold task_core. intros [= -> -> -> -> -> ->]. repeat split. Qed.
 (** [prune_targets] with its local definitions named. *)
 Definition prune_elig (t : task) : bool := (negb (t_is_epic t) && done_or_canceled (t_state t))%bool.
 Definition prune_rem (ts : list task) (ep : string) : bool :=
-  existsb (fun t => (negb (t_is_epic t) && negb (prune_elig t) && String.eqb (t_epic t) ep)%bool) ts.
+  existsb (fun t => (negb (t_is_epic t) && negb (prune_elig t) && negb (String.eqb (t_epic t) "") && String.eqb (t_epic t) ep)%bool) ts.
 Definition prune_keep (ts : list task) (t : task) : Prop :=
   (if t_is_epic t then negb (prune_rem ts (t_id t)) else prune_elig t) = true.
 Global Instance prune_keep_dec ts t : Decision (prune_keep ts t).
